@@ -11,7 +11,13 @@ import (
 	"safecheck/relang"
 )
 
-func init() { register("C11", "proof", runC11) }
+func init() {
+	register("C11", "proof", func(p *Program, r *Report) {
+		runC11(p, r)
+		checkBoundsProven(p, r, "C11.B1", "url.go")
+		checkLoopsMakeProgress(p, r, "C11.B2", "url.go")
+	})
+}
 
 // safeStores returns the stores into the single string field of safe type
 // typeName made by fn.
